@@ -75,6 +75,14 @@ def value_set(facts, body, e, depth=0):
         return out
     if k == "cast" and e[1] in ("IntToInt",):
         return value_set(facts, body, e[2], depth + 1)
+    if k == "field" and e[2] == 0 and e[1][0] == "binop" and e[1][1] in ("AddWithOverflow", "SubWithOverflow", "MulWithOverflow"):
+        return value_set(facts, body, e[1], depth + 1)       # the value component of a checked operation
+    if k == "binop" and e[1] in ("Add", "AddWithOverflow", "AddUnchecked", "Sub", "SubWithOverflow", "SubUnchecked", "Mul", "MulWithOverflow"):
+        xs, ys = value_set(facts, body, e[2], depth + 1), value_set(facts, body, e[3], depth + 1)
+        if xs is None or ys is None or len(xs) * len(ys) > 64:
+            return None
+        f = (lambda x, y: x + y) if e[1].startswith("Add") else (lambda x, y: x - y) if e[1].startswith("Sub") else (lambda x, y: x * y)
+        return {f(x, y) for x in xs for y in ys}
     if k == "field" and isinstance(e[2], int):
         # a column of a constant table walked by an iterator: `for (prefix, radix) in TABLE.iter()` — the values the
         # column can take are the constants in that position of the table's rows
@@ -317,6 +325,8 @@ def justify(facts, roles, arity, src, table):
         return None
     if rule == "strslice":
         return j_str_slice(facts, b, bi, t)
+    if rule == "panic":
+        return j_dead_by_length(facts, arity, b, bi)
     if rule == "floatsum":
         targs = t["callee"].get("targs", [])
         if targs and all(x in ("f64", "f32") or not re.search(r"\b[iu](8|16|32|64|128|size)\b", x) for x in targs) and any(x in ("f64", "f32") for x in targs):
@@ -613,10 +623,35 @@ def _same_struct_field(body, e, adt, fi=None):
     return False
 
 
+INT_RANGE = {"u8": (0, 2**8 - 1), "u16": (0, 2**16 - 1), "u32": (0, 2**32 - 1), "u64": (0, 2**64 - 1), "usize": (0, 2**64 - 1), "u128": (0, 2**128 - 1),
+             "i8": (-2**7, 2**7 - 1), "i16": (-2**15, 2**15 - 1), "i32": (-2**31, 2**31 - 1), "i64": (-2**63, 2**63 - 1), "isize": (-2**63, 2**63 - 1), "i128": (-2**127, 2**127 - 1)}
+
+
+def j_value_range(facts, b, bi):
+    """A checked `x op y` cannot overflow when the values both operands can take are known constants (written in
+    place, or parameters of a private function over all its call sites, through captures, phis and sums) and every
+    combination of them stays inside the range of the type."""
+    for s in b.blocks[bi]["stmts"]:
+        if s["k"] == "Assign" and s["rv"]["k"] == "BinaryOp" and s["rv"]["op"] in ("AddWithOverflow", "SubWithOverflow", "MulWithOverflow") and (s["rv"].get("opty") or "") in INT_RANGE:
+            rv = s["rv"]
+            xs, ys = value_set(facts, b, b.trace(rv["a"])), value_set(facts, b, b.trace(rv["b"]))
+            if not xs or not ys or len(xs) * len(ys) > 64:
+                return None
+            f = (lambda x, y: x + y) if rv["op"].startswith("Add") else (lambda x, y: x - y) if rv["op"].startswith("Sub") else (lambda x, y: x * y)
+            lo, hi = INT_RANGE[rv["opty"]]
+            if all(lo <= f(x, y) <= hi for x in xs for y in ys):
+                return "J4' value-set: operands ∈ %s and %s on every path (constants traced through parameters to all call sites): %s stays inside %s" % (sorted(xs), sorted(ys), rv["op"].replace("WithOverflow", "").lower(), rv["opty"])
+            return None
+    return None
+
+
 def j_assert(facts, b, bi, t):
     msg = t["msg"]
     if msg == "Overflow":
         j = j_counter(b, bi)
+        if j:
+            return j
+        j = j_value_range(facts, b, bi)
         if j:
             return j
         add = _overflow_add(b, bi)
@@ -915,12 +950,72 @@ def view_length(facts, arity, b, op):
     return None
 
 
-def j_index(facts, roles, arity, b, bi, t, vecop=None, idxop=None):
-    view = view_length(facts, arity, b, vecop if vecop is not None else t["args"][0])
-    idx = strip_refs(b.xtrace(idxop if idxop is not None else t["args"][1]))
-    if idx[0] != "const" or not isinstance(const_value(idx[1]), int):
+def _subst_args(e, args):
+    """e with every parameter ('arg', i) replaced by args[i-1] (expressions of the caller)"""
+    if isinstance(e, tuple):
+        if len(e) == 2 and e[0] == "arg" and isinstance(e[1], int):
+            return args[e[1] - 1] if 1 <= e[1] <= len(args) else e
+        return tuple(_subst_args(x, args) for x in e)
+    if isinstance(e, list):
+        return [_subst_args(x, args) for x in e]
+    return e
+
+
+def _call_sites(facts, b):
+    """Call sites [(caller body, block, terminator)] of a private function that is never handed on as a value, else None."""
+    it = facts.items.get(b.key, {})
+    if b.kind != "fn" or it.get("reachable") or it.get("exported"):
         return None
-    c = const_value(idx[1])
+    out = []
+    for cb in facts.fns():
+        for cbi, ct in cb.calls():
+            c = callee_of(ct)
+            if c and c.get("key") == b.key:
+                out.append((cb, cbi, ct))
+            elif any(fa.get("key") == b.key for fa in ((ct.get("callee") or {}).get("fnargs") or [])):
+                return None
+    return out or None
+
+
+def j_index(facts, roles, arity, b, bi, t, vecop=None, idxop=None):
+    """The index is read as the set of values it can take (a constant; sums of constants), the indexed value as its
+    length interval refined by the length tests that dominate the site.  When the site is in a private helper whose
+    index and/or list are its parameters, the same statement is made *per call site* of the helper — the value of the
+    index handed in there against the length interval that holds there (`holds_at(items, 1)` under `len != 2`)."""
+    vecop = vecop if vecop is not None else t["args"][0]
+    idx = strip_refs(b.xtrace(idxop if idxop is not None else t["args"][1]))
+    return _j_index_at(facts, arity, b, bi, vecop, idx, 0)
+
+
+def _j_index_at(facts, arity, b, bi, vecop, idx, depth):
+    vals = value_set(facts, b, idx) if not expr_mentions(idx, lambda x: x[0] == "arg") else None
+    if vals:
+        j = _j_index_const(facts, arity, b, bi, vecop, max(vals)) if min(vals) >= 0 else None
+        if j:
+            return j
+    # per call site of a private helper
+    if depth >= 3:
+        return None
+    v = strip_refs(b.trace(vecop))
+    sites = _call_sites(facts, b)
+    if sites is None or not (expr_mentions(idx, lambda x: x[0] == "arg") or v[0] == "arg"):
+        return None
+    if v[0] != "arg":
+        return None
+    whys = []
+    for (cb, cbi, ct) in sites:
+        args = [cb.trace(a) for a in ct["args"]]
+        if v[1] > len(ct["args"]):
+            return None
+        j = _j_index_at(facts, arity, cb, cbi, ct["args"][v[1] - 1], strip_refs(_subst_args(idx, args)), depth + 1)
+        if j is None:
+            return None
+        whys.append("%s: %s" % (cb.key.split("::", 1)[1], j))
+    return "J3 per call site of this helper (index and list are its parameters) — " + " | ".join(sorted(set(whys)))[:600]
+
+
+def _j_index_const(facts, arity, b, bi, vecop, c):
+    view = view_length(facts, arity, b, vecop)
     if view is None:
         return None
     lo, hi, what, is_len = view
@@ -928,6 +1023,43 @@ def j_index(facts, roles, arity, b, bi, t, vecop=None, idxop=None):
         if what == "operand list":
             return "J3 arity: index %d < minimum operand count %d of every table entry bound to this function" % (c, lo)
         return "J3 view length: index %d < %d = minimum length of an %s" % (c, lo, what)
+    lo, hi, used = refined_length(b, bi, view)
+    if c < lo:
+        return "J3 %s: length ∈ [%s,%s] after %s ⇒ index %d in bounds" % ("arity interval" if what == "operand list" else "view length (%s)" % what, lo, "∞" if hi == float("inf") else hi, "; ".join(used), c)
+    return None
+
+
+def j_dead_by_length(facts, arity, b, bi):
+    """An explicit panic (`unreachable!()` in the rest arm of a slice-pattern match, a `_ =>` after the lengths that can
+    occur) is dead code when the length tests that dominate it, on a value whose length interval is known (operand
+    list by arity, item of chunks(n)/windows(n)…), leave no length at all."""
+    seen = []
+    for sb in sorted(b.reachable()):
+        for s in b.blocks[sb]["stmts"]:
+            if s["k"] == "Assign" and s["rv"]["k"] == "UnaryOp" and s["rv"]["op"] == "PtrMetadata" and b.dominates(sb, bi):
+                seen.append(s["rv"]["a"])
+        t = b.blocks[sb]["term"]
+        if t["k"] == "Call" and (callee_path(t) or "") in LEN_CALLS and t["args"] and b.dominates(sb, bi):
+            seen.append(t["args"][0])
+    done = set()
+    for op in seen:
+        k = repr(strip_refs(b.trace(op)))
+        if k in done:
+            continue
+        done.add(k)
+        view = view_length(facts, arity, b, op)
+        if view is None:
+            continue
+        lo, hi, used = refined_length(b, bi, view)
+        if lo > hi and used:
+            return "J3 dead code: the length of the %s is in [%s,%s]; the tests that dominate this site (%s) leave no possible length" % (view[2], view[0], view[1], "; ".join(used))
+    return None
+
+
+def refined_length(b, bi, view):
+    """(lo, hi, tests used): the length interval of the view at block bi of b, after the length tests on that very value
+    that dominate the site (in b and, for a closure, around its creation in the enclosing bodies)."""
+    lo, hi, what, is_len = view
     # refine along dominating comparison edges on the length of that very value
     chain = [b]
     cur = b
@@ -995,9 +1127,9 @@ def j_index(facts, roles, arity, b, bi, t, vecop=None, idxop=None):
                 used.append("len %s %d (bb%d of %s)" % (eff, k, sb, body.key.rsplit("::", 1)[-1]))
     while lo in excluded:
         lo += 1
-    if c < lo:
-        return "J3 %s: length ∈ [%s,%s] after %s ⇒ index %d in bounds" % ("arity interval" if what == "operand list" else "view length (%s)" % what, lo, "∞" if hi == float("inf") else hi, "; ".join(used), c)
-    return None
+    while hi in excluded and hi >= lo:
+        hi -= 1
+    return lo, hi, used
 
 
 def is_len_of_vec(arity, body, e):
